@@ -1,0 +1,90 @@
+//go:build verif
+
+// Contracts for the deductive verifier in /verif (govc): the evaluator gives
+// the repository filters the meaning that shard pre-selection and per-shard
+// simplification assume (C05, C18). Comment-only file, compiled only with
+// -tags verif.
+
+package index
+
+//@ func regexp.(*Regexp).MatchString
+//@   trusted
+//@   flag only_for=index.(*indexData).newMatchTree
+//@   ensures result == reMatch(re, s)
+//@   assigns nothing
+//@ func roaring.(*Bitmap).Contains
+//@   trusted
+//@   flag only_for=index.(*indexData).newMatchTree
+//@   ensures result == bmHas(rb, x)
+//@   assigns nothing
+
+// newMatchTree, repository filters: the per-repository table the document
+// predicate looks up holds, for every repository of the shard, exactly the
+// verdict of the formula that search.doSelectRepoSet's predicates and
+// indexData.simplify's predicates are proved to compute for that kind of
+// filter (repository set: the VALUE stored under the name; ids: bitmap
+// membership; name patterns: the pattern matches the name; metadata: the field
+// is present and its value matches). Only these loops are specified; the rest
+// of the function is verified for nothing but their frame (may_panic, trivial
+// invariants).
+//@ func index.(*indexData).newMatchTree
+//@   returns_fresh
+//@   may_panic
+//@   dead_return -1
+//@   loop 1:
+//@     invariant true
+//@   loop 2:
+//@     invariant true
+//@   loop 3:
+//@     invariant len(reposWant) == len(d.repoMetaData)
+//@     invariant forall k int :: 0 <= k && k <= $i ==> reposWant[k] == (d.repoMetaData[k].Metadata != nil && has(d.repoMetaData[k].Metadata, s.Field) && reMatch(s.Value, d.repoMetaData[k].Metadata[s.Field]))
+//@     invariant forall k int :: $i < k && k < len(reposWant) ==> !reposWant[k]
+//@   loop 4:
+//@     invariant true
+//@   loop 5:
+//@     invariant true
+//@   loop 6:
+//@     invariant true
+//@   loop 7:
+//@     invariant true
+//@   loop 8:
+//@     invariant true
+//@   loop 9:
+//@     invariant len(reposWant) == len(d.repoMetaData)
+//@     invariant forall k int :: 0 <= k && k <= $i ==> reposWant[k] == s.Set[d.repoMetaData[k].Name]
+//@     invariant forall k int :: $i < k && k < len(reposWant) ==> !reposWant[k]
+//@   loop 10:
+//@     invariant len(reposWant) == len(d.repoMetaData)
+//@     invariant forall k int :: 0 <= k && k <= $i ==> reposWant[k] == bmHas(s.Repos, d.repoMetaData[k].ID)
+//@     invariant forall k int :: $i < k && k < len(reposWant) ==> !reposWant[k]
+//@   loop 11:
+//@     invariant len(reposWant) == len(d.repoMetaData)
+//@     invariant forall k int :: 0 <= k && k <= $i ==> reposWant[k] == reMatch(s.Regexp, d.repoMetaData[k].Name)
+//@     invariant forall k int :: $i < k && k < len(reposWant) ==> !reposWant[k]
+//@   loop 12:
+//@     invariant len(reposWant) == len(d.repoMetaData)
+//@     invariant forall k int :: 0 <= k && k <= $i ==> reposWant[k] == reMatch(s.Regexp, d.repoMetaData[k].Name)
+//@     invariant forall k int :: $i < k && k < len(reposWant) ==> !reposWant[k]
+
+// The document predicates of the repository filters: the verdict of the
+// document's repository in the table built above.
+//@ func index.(*indexData).newMatchTree$1
+//@   may_panic
+//@   ensures result == (d.repos[docID] < len(reposWant) && reposWant[d.repos[docID]])
+//@   assigns nothing
+//@ func index.(*indexData).newMatchTree$6
+//@   may_panic
+//@   ensures result == reposWant[d.repos[docID]]
+//@   assigns nothing
+//@ func index.(*indexData).newMatchTree$7
+//@   may_panic
+//@   ensures result == reposWant[d.repos[docID]]
+//@   assigns nothing
+//@ func index.(*indexData).newMatchTree$8
+//@   may_panic
+//@   ensures result == reposWant[d.repos[docID]]
+//@   assigns nothing
+//@ func index.(*indexData).newMatchTree$9
+//@   may_panic
+//@   ensures result == reposWant[d.repos[docID]]
+//@   assigns nothing
